@@ -64,6 +64,13 @@ func expand(seed uint64, n int) []byte {
 	return out
 }
 
+func mix64(x uint64) uint64 {
+	x += 0x9E3779B97F4A7C15
+	x = (x ^ (x >> 30)) * 0xBF58476D1CE4E5B9
+	x = (x ^ (x >> 27)) * 0x94D049BB133111EB
+	return x ^ (x >> 31)
+}
+
 func drawBytes(t *rapid.T, n int, label string) []byte {
 	if n <= 24 {
 		return rapid.SliceOfN(rapid.Byte(), n, n).Draw(t, label)
@@ -194,21 +201,22 @@ func drawSubset(t *rapid.T, k int) []bool {
 	if k == 0 {
 		return in
 	}
+	// simpler modes have smaller numbers so that shrinking moves towards them
 	switch mode := rapid.IntRange(0, 9).Draw(t, "subset_mode"); mode {
 	case 0: // none
-	case 1: // all
-		for i := range in {
-			in[i] = true
-		}
-	case 2: // exactly one
+	case 1: // exactly one
 		in[rapid.IntRange(0, k-1).Draw(t, "subset_one")] = true
-	case 3: // all but one
+	case 8: // all but one
 		for i := range in {
 			in[i] = true
 		}
 		in[rapid.IntRange(0, k-1).Draw(t, "subset_but")] = false
+	case 9: // all
+		for i := range in {
+			in[i] = true
+		}
 	default:
-		pct := []int{15, 50, 50, 50, 85, 85}[mode-4]
+		pct := []int{15, 50, 50, 50, 85, 85}[mode-2]
 		for i := range in {
 			in[i] = rapid.IntRange(0, 99).Draw(t, fmt.Sprintf("in%d", i)) < pct
 		}
@@ -247,7 +255,9 @@ func drawWire(t *rapid.T, b *binding, in []bool) wireCase {
 
 func genWire(t *rapid.T) wireCase {
 	bs := usable()
-	b := bs[rapid.IntRange(0, len(bs)-1).Draw(t, "msg")]
+	// rapid's integer generators favour small values; the message type is therefore taken from
+	// a mixed 64-bit draw so that all 45 types get the same share of the cases
+	b := bs[int(mix64(rapid.Uint64().Draw(t, "msg"))%uint64(len(bs)))]
 	return drawWire(t, b, nil)
 }
 
